@@ -21,29 +21,37 @@ CHECKS = {
  'C12': ('model_checking', 'the real SdCard driver runs against a simulated card that is a transcription of spec/SdCard.tla; TLC validates every bus event and every call result: reads return the card memory at the addressed blocks, writes change exactly those blocks, capacity = SdCard.CsdBlocks(register), kind identified; kinds x CRC x capacities x timings', 'TLA+ trace validation of driver/card conversations against SdCard.tla (SdTrace)', '7 C12'),
  'C13': ('fault_enumeration', 'one card misbehaviour per scenario from the C13 menu (silent, error bits, bad echo, never ready, no/err/bad token, bit flips and bursts, rejected writes, busy for ever, status errors, SPI error at byte k, card dying at byte k with 0xFF/0x00) at every stage; TLC checks each call outcome against the rules of SdTrace and the traffic budget', 'fault enumeration over the SdCard.tla misbehaviour menu, outcomes decided by TLC (SdTrace)', '7 C13'),
  'C14': ('model_checking', 'SdCard.HostLegalWhy is evaluated by TLC on every command frame, data block and token the driver puts on the bus in every C12/C13 scenario, including calls after errors and re-initialisation', 'TLA+ protocol acceptor (SdCard.HostLegalWhy) over every recorded bus event', '7 C14'),
+ 'C15': ('model_checking', 'Mount.tla (Valid, Layout): every generated valid layout (blocks per cluster 1..128, cluster-count boundaries, reserved/FATs/root entries/16-32-bit totals/partition slots) is driven through open/list/read/create/remount and validated by FatTrace, the formatter is cross-checked against Mount.Layout; every field of MBR, boot sector and info sector at its boundary values, random mutations and random sectors go through open_volume and MountTrace (panic = violation; Valid and refused = violation)', 'TLA+ Mount.Valid/Layout as oracle over enumerated valid layouts and field mutations (MountTrace, FatTrace)', '7 C15'),
+ 'C17': ('model_checking', 'Lfn.tla: lossy UTF-16 decoding, buffer fit rule and the fragment-run acceptor; 40 k buffer vectors (code-unit classes at fragment boundaries x buffer sizes around the threshold) through the real LfnBuffer, and directories packed with every short symbol sequence of fragment kinds through the real iterate_dir_lfn, all validated by TLC', 'TLA+ Lfn.BufferText / Lfn.LfnFor as oracle for LfnBuffer vectors and listing traces', '7 C17'),
+ 'C18': ('exploration', 'Codec.tla / Sfn.tla evaluated by TLC on vectors from the implementation: all date and all time words, calendar boundaries, directory entries over all attribute bytes x FAT types x boundary clusters/sizes (decode, encode via the guarded hook, round trip), all strings up to length 4-5 over a 12-class alphabet plus structured names; native loops over (date,time) pairs and all calendar days', 'TLC-evaluated transcriptions of the codecs (Codec.tla, Sfn.tla) as oracle over enumerated inputs', '7 C18'),
+ 'C19': ('exploration', 'MCCrc: both shift registers model-checked over every register value with the linearity/bijectivity/self-annihilation/error-detection ASSUMEs; Crc.tla evaluated by TLC on message vectors from the implementation; native comparison on all 2^24 three-byte messages', 'TLC model of the CRC LFSRs + TLC-evaluated Crc.tla as oracle', '7 C19'),
  'C16': ('model_checking', 'FatCopiesEqual at every Return (window values in TLA+, byte comparison of the regions by the harness); InfoTruthful at flush/close/close_volume for correct, unknown, stale and out-of-range records', 'TLA+ invariants FatCopiesEqual/InfoTruthful on validated traces', '7 C16'),
 }
 ENGINES = [
+ dict(name='pure-vectors', path='check', serves_properties=['C15', 'C17', 'C18', 'C19'],
+      kind_free_text='harness emits input/output vectors of the real functions; TLC validates each against the transcribed TLA+ definition (CrcTrace, CodecTrace, LfnTrace, MountTrace) and model-checks the CRC registers (MCCrc)'),
  dict(name='sd-trace', path='check', serves_properties=['C12', 'C13', 'C14'],
       kind_free_text='the real SdCard driver against a simulated card behind embedded_hal SpiDevice (harness/src/sim.rs); TLC validates the bus-event trace against spec/SdTrace.tla (SdCard.tla)'),
- dict(name='fs-trace', path='check', serves_properties=sorted(k for k in CHECKS if k not in ('C12', 'C13', 'C14')),
+ dict(name='fs-trace', path='check', serves_properties=sorted(k for k in CHECKS if k not in ('C12', 'C13', 'C14', 'C15', 'C17', 'C18', 'C19')),
       kind_free_text='Rust harness (harness/) drives the real VolumeManager over a logging sparse block device; TLC validates the NDJSON trace against spec/FatTrace.tla (FatApi + FatDisk + FatInv)'),
 ]
 SD_NOTE = ('Trusted: TLC; the framing parser of the simulated card (harness/src/sim.rs), whose replies are validated against SdCard.tla event by event; '
            'the reading of the SD specification transcribed in SdCard.tla (one idle byte before busy after the stop token, CMD12 allowed to abort a multi-block write).')
+PURE_NOTE = ('Trusted: TLC evaluating the transcribed definitions (Crc, Codec, Sfn, Lfn, Mount .tla); the vector generators of harness/src/pure.rs and mount.rs; the guarded hook DirEntry::verif_serialize forwards to the real serialiser.')
 checks = []
 for pid, (level, text, tech, ref) in sorted(CHECKS.items()):
     sd = pid in ('C12', 'C13', 'C14')
+    pure = pid in ('C15', 'C17', 'C18', 'C19')
     checks.append(dict(property_id=pid, quick_cmd='./check %s --tier quick' % pid, thorough_cmd='./check %s --tier thorough' % pid,
                        evidence_file='evidence/%s.json' % pid, replay_cmd_template='./check %s --replay {path}' % pid,
-                       engine='sd-trace' if sd else 'fs-trace', level_claimed=dict(category=level, text=text, design_ref='DESIGN.md section ' + ref),
-                       level_note=SD_NOTE if sd else FS_NOTE, technique=tech))
+                       engine='sd-trace' if sd else ('pure-vectors' if pure else 'fs-trace'), level_claimed=dict(category=level, text=text, design_ref='DESIGN.md section ' + ref),
+                       level_note=SD_NOTE if sd else (PURE_NOTE if pure else FS_NOTE), technique=tech))
 na = [dict(property_id=p['id'], reason='check under construction in this build phase (DESIGN.md section 7 describes the planned TLA+ model and conformance harness)')
       for p in props if p['id'] not in CHECKS]
 m = dict(version=1,
          setup_cmd='cd harness && cp -n /repo/Cargo.lock Cargo.lock; CARGO_NET_OFFLINE=true cargo build --offline',
          hooks=dict(guard='embedded_sdmmc_verif', enable='harness/.cargo/config.toml passes --cfg embedded_sdmmc_verif; no source hooks were needed (block device, time source, SPI are traits the harness implements)',
-                    baseline_off_cmd='cd /repo && cargo test --workspace --no-fail-fast --offline', source_commits=[], add_only=True),
+                    baseline_off_cmd='cd /repo && cargo test --workspace --no-fail-fast --offline', source_commits=['53510b6'], add_only=True),
          engines=ENGINES, checks=checks, not_applicable=na,
          notes='Known findings: known_findings.json. Fixes of genuine defects are the "fix:" commits in /repo.')
 json.dump(m, open(os.path.join(ROOT, 'MANIFEST.json'), 'w'), indent=1)
